@@ -268,7 +268,8 @@ def instances(tier):
         out.append(inst_unify([(("i", "j"), (2, 2), 8), (("j", "i"), (2, 2), 8, 0)], policy, 3 if policy == "auto" else None))
         if policy != "refine":
             # both operands are grown by the merge, crosswise (the size guard must track the worst one)
-            out.append(inst_unify([(("i", "j"), (2, 3), 8), (("i", "j"), (3, 2), 4)], policy, 2 if q else 3))
+            # (sizes <= 3 under 'auto' -- a nonlinear cost comparison -- makes z3 answer unknown on a loaded machine: <= 2 in both tiers)
+            out.append(inst_unify([(("i", "j"), (2, 3), 8), (("i", "j"), (3, 2), 4)], policy, 2 if (q or policy == "auto") else 3))
         if not q:
             out.append(inst_unify([(I, (3,), 8), (I, (3,), 8)], policy, hi))
             out.append(inst_unify([(I, (2,), 8), (I, (2,), 4), (I, (3,), 2)], policy, 4 if policy == "auto" else None))
